@@ -3,6 +3,7 @@
 cd "$(dirname "$0")"
 V=$(pwd)
 . "$V/env.sh"
+export VERIF_DIR="$V"
 if [ ! -x "$V/.build/vdrv" ] || [ "$V/driver/main.go" -nt "$V/.build/vdrv" ]; then
   (cd "$V/driver" && CGO_ENABLED=0 $GO build -o "$V/.build/vdrv" .) || exit 2
 fi
